@@ -73,6 +73,20 @@ def poly(case):
                     if np.shape(got) != np.shape(want) or not np.allclose(got, want, rtol=1e-12, atol=0):
                         bad.append(dict(method=method, n=0, call='Derivative(g, n=0)(x, 2.0, b=0.5, flag=True)', x=np.asarray(x0).tolist(),
                                         got=np.asarray(got).tolist(), expected=np.asarray(want).tolist()))
+        # one object taken through n = 0 and then set to n through the public property gives what a fresh object gives
+        for method in sorted({case.get('method', 'central'), 'central', 'complex'}):
+            for n in sorted({max(int(case.get('n', 1)), 1), 1, 2}):
+                f = lambda t: np.sin(3 * t) + np.exp(-0.5 * t)
+                try:
+                    d = nd.Derivative(f, n=0, method=method)
+                    d(0.4)
+                    d.n = n
+                    got = d(0.4)
+                    want = nd.Derivative(f, n=n, method=method)(0.4)
+                except Exception as e:
+                    bad.append(dict(method=method, n=n, history='n=0 then n=%d' % n, raised=repr(e)[:120])); continue
+                if not np.allclose(got, want, rtol=1e-9, atol=1e-12):
+                    bad.append(dict(method=method, history='Derivative(f, n=0)(x); d.n = %d; d(x)' % n, got=float(got), fresh_object=float(want)))
     return dict(reproduced=bool(bad), failing=bad[:4], statement='Derivative of a polynomial of the degree the pipeline is exact for must equal its n-th derivative')
 
 
